@@ -3,13 +3,9 @@
    breaks when an entity row, a C1 entry or a numeric range changes in /repo. *)
 From Coq Require Import List NArith Bool.
 From HV Require Import CharRef.CRModel CharRef.CRSpec CharRef.CRTable CharRef.CRRun CharRef.CRNamed
-  CharRef.CRNumeric CharRef.CRTheorems CharRef.WhatwgEntities Gen.GenEntities Gen.GenC1.
+  CharRef.CRNumeric CharRef.CRTheorems CharRef.WhatwgEntities CharRef.CRGenTable Gen.GenEntities Gen.GenC1.
 Import ListNotations.
 Open Scope N_scope.
-
-(* the table the extracted model runs with: a trie built from the generated list *)
-Definition gen_trie : trie := tbuild entities.
-Definition gen_table : entity_table := table_of_trie gen_trie.
 
 (* the WHATWG table as a lookup function *)
 Definition whatwg_table : entity_table := alookup whatwg_entities.
